@@ -61,7 +61,7 @@ def vec_scenario(k, plan, exe, root, which):
     size_ptr = cnt_ptr + 4
     i_sizes = g.call('%s_sizes_get' % which, [cnt_ptr, size_ptr], abi=abi)
     d_sizes = g.dump(cnt_ptr, 8)
-    placement = r.choice(['low', 'mid', 'end', 'end-ptrs'])
+    placement = r.choice(['low', 'mid', 'end', 'end-ptrs', 'flush-ptrs', 'flush-both'])
     if placement == 'low':
         ptrs, buf = 0x200, 0x200 + 4 * n + r.randint(0, 64)
     elif placement == 'mid':
@@ -71,10 +71,18 @@ def vec_scenario(k, plan, exe, root, which):
     elif placement == 'end':
         buf = MEMSZ - total
         ptrs = 0x400
-    else:
+    elif placement == 'end-ptrs':
         ptrs = MEMSZ - 4 * n - 8 if n else MEMSZ - 8
         ptrs = ptrs // 4 * 4
         buf = 0x10000
+    elif placement == 'flush-ptrs':
+        # the pointer array ends exactly at the last byte of the memory
+        ptrs = MEMSZ - 4 * n if n else MEMSZ - 4
+        buf = 0x10000
+    else:
+        # strings first, array last, both flush against the end (the array may be unaligned)
+        ptrs = MEMSZ - 4 * n if n else MEMSZ - 4
+        buf = ptrs - total
     i_get = g.call('%s_get' % which, [ptrs, buf], abi=abi)
     d_all = g.emit('w 0 0 0 %d' % MEMSZ, 'dump')
     script = g.script()
